@@ -78,6 +78,10 @@ def _bytes_escape(match: Match[bytes]) -> bytes:
 
 
 def param_to_str(ident: str) -> str:
+    if ident.startswith('`'):
+        # The parser keeps the backticks of a quoted parameter name as
+        # part of the name (an unquoted name cannot contain any).
+        return '$' + ident
     return '$' + edgeql_quote.quote_ident(
         ident, allow_reserved=True, allow_num=True)
 
